@@ -85,6 +85,21 @@ def gen_case(rng, idx, tier):
         elif co < 0.2 and op != "matmul" and (op != "div" or dimA == 0) and (op != "mul" or dimA == 0):
             B = {"U": list(A["U"]), "P": [F(abs(x) + 1) for x in A["P"]] if op == "div" and dimA == 0 else list(A["P"]), "W": None if A["W"] is None else list(A["W"])}
             relation = "samedata"
+        elif co < 0.36:
+            # same degree, size and distinct knots as A, multiplicities permuted among the interior knots (round 8): the
+            # neighbourhood of "same basis", where a shortcut that adds control points directly would sit
+            a_, b_ = A["U"][0], A["U"][-1]
+            pA = ref.degree(A["U"])
+            ks_ = [k for k in ref.distinct(A["U"]) if a_ < k < b_]
+            ms_ = [ref.mult(A["U"], k) for k in ks_]
+            if len(set(ms_)) > 1:
+                ms2 = ms_[:]
+                while ms2 == ms_:
+                    rng.shuffle(ms2)
+                n = len(A["P"])
+                P2 = [F(rng.randint(1, 9), rng.choice([1, 2, 3])) for _ in range(n)] if op == "div" else gen.points(rng, n, dimB)
+                B = {"U": gen.kv_from(a_, b_, pA, ks_, ms2), "P": P2, "W": None}
+                relation = "multswapped"
         if rng.random() < 0.1:
             # control values of very different magnitude in the two operands (exact class only): nothing in the
             # statement depends on the size of the numbers
